@@ -92,18 +92,20 @@ CLAIMS = {
              "equal to the X-25 CRC over the right spans (composition of the C12, C13 and C20 theorems); (2) whatever a "
              "parser accepts is enclosed by flags, has exactly the announced length and a frame check sequence that is "
              "correct for the RECEIVED bytes; (3) every truncation or extension (length differing from the carried "
-             "length field) is refused; (4) corruption: the CRC register is linear over GF(2) and every error burst of at "
-             "most 16 bits (a 2^16 x 8 sweep in the kernel, lifted to messages of ANY length) has a non-zero syndrome, hence a "
-             "valid frame of any length hit by ANY single burst of <= 16 bits between its flags - every single-bit error "
-             "included - no longer carries a correct frame check sequence and is refused by every parser. Not theorems: "
-             "parse-after-build for all frames, and the 2- and 3-bit patterns that are not one burst; they are decided on "
-             "the implementation by fault enumeration on every run (every single-bit flip and truncation of every generated "
-             "frame <= 80 bytes, sampled 2-/3-bit flips and bursts), with the model compared on all of these inputs.",
-        note="Partial proof (layout, acceptance soundness, resize refusal and burst-error refusal proved; round-trip and "
-             "multi-bit non-burst corruption checked by fault enumeration against implementation and model). Model follows fix "
+             "length field) is refused; (4) corruption: the CRC register is linear over GF(2); every error burst of at most 16 "
+             "bits (a 2^16 x 8 sweep in the kernel, lifted to messages of ANY length) has a non-zero syndrome; any two flipped "
+             "bits have one (the register 1 does not return to 1 within 32766 zero-input steps - walked in the kernel - so for "
+             "messages up to 4095 bytes two single-bit syndromes differ); any odd number of flipped bits has one (the generator "
+             "has the factor x+1: register parity is invariant). Hence a valid frame of any length hit between its flags by "
+             "ANY error of one, two or three bits or by ANY single burst of <= 16 bits no longer carries a correct frame check "
+             "sequence and is refused by every parser (a damaged flag is refused by (2)). Not a theorem: parse-after-build for "
+             "all frames (decided by enumeration: the model is compared with the implementation on every generated frame, on "
+             "every single-bit flip and truncation of every frame <= 80 bytes and on sampled 2-/3-bit flips and bursts).",
+        note="Layout, acceptance soundness, resize refusal and the whole corruption clause are proved; the round trip "
+             "(parse after build) is checked by enumeration against implementation and model. Model follows fix "
              "commits 13a5e7c (check sequences over received bytes) and f440141 (segmentation bit kept). Known finding F09b: "
              "P/F attribute of SNRM/UA/DISC/RR is not on the wire.",
-        technique="Coq proof (layout, acceptance soundness, CRC linearity and burst detection) + correspondence + exhaustive single-fault enumeration",
+        technique="Coq proof (layout, acceptance soundness, CRC linearity, burst / 2-bit / odd-weight detection) + correspondence + exhaustive single-fault enumeration",
         design="4/C09"),
     "C03": dict(
         text="Coq theorems (axiom-free) over the generated transition table and the modelled control flow of send / "
